@@ -303,7 +303,12 @@ func (d *Decoder) readUntypedList(tag byte) (interface{}, error) {
 		}
 
 		if isVariableArr {
-			aryValue = reflect.Append(aryValue, EnsureRawValue(it))
+			v := EnsureRawValue(it)
+			if !v.IsValid() {
+				// a null element
+				v = reflect.Zero(aryValue.Type().Elem())
+			}
+			aryValue = reflect.Append(aryValue, v)
 			holder.change(aryValue)
 		} else {
 			ary[j] = it
